@@ -413,16 +413,20 @@ Plan nav_generate(uint64_t base, const std::string &prop, uint64_t index, int ti
     k.max_obj_depth = 1 + (int)rd.below(6);
     k.max_arr_depth = 1 + (int)rd.below(5);
     if (prop == "C07" || rd.chance(1, 5)) k.max_kids = 3 + (int)rd.below(10);
+    static const int WIDE[] = {17, 33, 65, 129, 255, 256, 257, 300};
+    if (rd.chance(1, tier ? 25 : 60)) k.wide = WIDE[rd.below(8)];
     Node root;
     if (rd.chance(3, 100)) {
         root.t = p.root ? V_ARR : V_OBJ;
         int od = 1 + (int)rd.below(tier ? 250 : 30), ad = (int)rd.below(tier ? 200 : 30);
+        if (rd.chance(1, 3)) { static const int T[] = {7, 8, 9, 15, 16, 17, 31, 32, 33, 63, 64, 65, 127, 128, 129}; if (rd.chance(1, 2)) od = T[rd.below(15)]; else ad = T[rd.below(15)]; }
         deep_shape(rd, root, p.root != 0, od, ad);
         p.faults.push_back("shape:deep");
     } else root = gen_tree(rd, k, p.root != 0);
     encode(root, p.doc);
     int need = std::max(1, need_depth(root, p.root != 0));
     p.max_depth = std::min(255, need + (int)rd.below(3));
+    if (rd.chance(1, 12)) p.max_depth = std::min(255, need + (int)rd.below(256 - (uint64_t)std::min(255, need)));      // an application with far more levels than the document needs
     if (need > 255) { // cannot be traversed; fall back to a tiny document
         root = Node(); root.t = p.root ? V_ARR : V_OBJ; encode(root, p.doc); p.max_depth = 1;
     }
@@ -438,6 +442,7 @@ Plan nav_generate(uint64_t base, const std::string &prop, uint64_t index, int ti
     else { w_field = 15; w_ens = 4; w_raw = 8; w_tw = 6; }   // mixed corpus (C16 / C18 / C17 reuse this engine)
     if (prop != "C16" && ro.chance(1, 5)) p.par["nocb"] = 1;      // an application without a token callback
     int nops = 1 + (int)ro.below(tier ? 120 : 80);
+    if (k.wide) { nops = k.wide + (int)ro.below(200); w_next += 200; }     // long enough to walk across the wide container
     GenCursor g; g.root = &root; g.cur.root = &root; g.cur.array_root = p.root != 0;
     std::vector<Node> dummy;
     int w_restart = ro.chance(1, 3) ? 2 + (int)ro.below(8) : 0;        // a third of the histories restart the parser now and then
